@@ -180,6 +180,28 @@ for _p, _t in EXTRA5.items():
     if _p in CLAIMED:
         CLAIMED[_p]["text"] += _t
 
+EXTRA6 = {
+ "C01": " After mutation round 5: IN / NOT IN lists hold plain values (c12.sink-unwrapped); the option rewriters keep their quote states (c17.quote-states, c17.termination-byte, c17.option-order, c17.escape-skip, c17.byte-copy); a selector text is never a literal key of the row (c09.no-literal-shortcut); every numeric kind is a number for Compare (c15.symmetric-dispatch).",
+ "C02": " After mutation round 5: c09.no-literal-shortcut; the option rewriters (c17.*).",
+ "C03": " After mutation round 5: c15.symmetric-dispatch (HAVING compares COUNT results, Go ints, as numbers).",
+ "C04": " After mutation round 5: the sides of a join come from the FROM builder and its alias wrapper on rows of their own (c07.from-arms, c07.alias); the key text is the decimal text at any magnitude (c18.text-of).",
+ "C05": " After mutation round 5: an empty window is an empty row sequence — no (nil, nil) exit of exec outside the FROM-less arm (c05.window/empty-window-shape).",
+ "C06": " After mutation round 5: with DISTINCT no path of the duplicate elimination returns its rows unexamined (c06.distinct-first).",
+ "C07": " After mutation round 5: the memo is stored into the very registry the CTE was registered in, and nothing deferred by the thunk writes that registry (c07.cte-memo; closure factories followed).",
+ "C09": " After mutation round 5: c09.no-literal-shortcut; option order and the bracket scanner's quote states (c17.option-order, c17.quote-states).",
+ "C10": " After mutation round 5: a goroutine counted with wg.Add signals Done (c10.go-closure/done-after-add); what isParallelSafe admits writes no query state (c13.parallel-evaluators).",
+ "C12": " After mutation round 5: c18.pure, c14.resolve-before-compare, c08.copy-fields.",
+ "C13": " After mutation round 5: c13.parallel-evaluators.",
+ "C14": " After mutation round 5: c07.cte-memo (a CTE body's calls run once); c10.go-closure incl. done-after-add.",
+ "C15": " After mutation round 5: c12.sink-unwrapped, c18.text-of.",
+ "C16": " After mutation round 5: a literal node is evaluated by the literal evaluator, not served from a memo keyed by its bare text (expr.dispatch); the quote rewriter copies bytes (c17.byte-copy and siblings).",
+ "C18": " After mutation round 5: the error of a built-in leaves FunExpr as an error with or without a handler (c19.no-drop).",
+ "C20": " After mutation round 5: c07.cte-memo (SETVAR in a CTE body runs once).",
+}
+for _p, _t in EXTRA6.items():
+    if _p in CLAIMED:
+        CLAIMED[_p]["text"] += _t
+
 _pending = "rule set for this property is not implemented yet in this round (see DESIGN.md section 2 for the planned structural rules)"
 for p in ["C01","C02","C03","C04","C05","C06","C07","C09","C10","C11","C12","C13","C14","C15","C16","C17","C18","C19","C20"]:
     if p not in CLAIMED:
